@@ -21,6 +21,7 @@ from . import common
 
 ID = 'C12'
 LEVEL = 'exploration'
+ENV_OPT_OUT = ('empty_poll',)      # the monitors compared here are not at the same update count (reset / rebuilt stand-alone monitors)
 RUNS = {'quick': 30000, 'thorough': 200000}
 SIM_TIME_UNIT = 'updates / evaluations'
 RULE = ('seeded generation of (modular specification with 1-4 named sub-specifications incl. shared, nested and unreferenced '
